@@ -143,7 +143,8 @@ def _publish_handler(ctx):
     from props.C10 import PublishHandler
     ph = PublishHandler(ctx)
     ph.id = 'C08.d-publish-handler'
-    return [ph]
+    from props.actor_steps import SubscriptionActorHistory
+    return [ph, SubscriptionActorHistory(ctx, 'C08.e-history-subscription-actor')]
 
 
 def kani_harnesses(cfg):
